@@ -16,9 +16,35 @@ mutation = st.fixed_dictionaries({"k": st.sampled_from(["delete", "dup", "swap",
                                   "pos": st.integers(0, 400), "arg": st.integers(0, 255)})
 
 
+# ---- token soup in syntactic frames: short inputs over the whole vocabulary (every keyword, marker, operator and literal shape)
+VOCAB = ["def", "fun", "var", "auto", "global", "if", "else", "for", "while", "return", "break", "continue", "try", "catch", "finally", "switch", "case",
+         "default", "class", "attr", "this", "true", "false", "Infinity", "NaN", "__LINE__", "__FILE__", "__FUNC__", "__CLASS__", "_",
+         "+", "-", "*", "/", "%", "<<", ">>", "&", "|", "^", "~", "!", "&&", "||", "==", "!=", "<", ">", "<=", ">=", "=", ":=", "+=", "-=", "*=", "/=", "%=",
+         "<<=", ">>=", "&=", "|=", "^=", "++", "--", "?", ":", "::", ".", "..", ",", ";", "\n", "(", ")", "[", "]", "{", "}", "&", "`+`", "`<`",
+         "0", "1", "2", "7u", "3l", "5ull", "0x1F", "0b101", "017", "08", "2147483648", "18446744073709551615", "1.5", "2.0f", "3.0l", ".5", "1.", "1e3", "1.5e-3",
+         "1e", "0x", "'a'", "'\\n'", "'ab'", "''", "\"s\"", "\"\"", "\"a${1}b\"", "\"${\"", "\"\\x41\\u00e9\"", "\"\\q\"", "\"", "x", "y", "f", "C", "int", "string",
+         "x.y", "f()", "f(1)", "x[0]", "[1, 2]", "[\"k\": 1]", "[1..3]", "fun(a) { a }", "fun[x]() { x }", ": int", "#c\n", "//c\n", "/*c*/", "/*"]
+VOCAB += ["__LINE__", "__FILE__", "__FUNC__", "__CLASS__"] * 3 + ["1.5", "2.0f", "%", "<<", "&", "|", "^", ">>"] * 2      # rarer context-sensitive words and float x integer-only operators
+FRAMES = ["@", "@", "@\n@", "def f(@) { @ }", "def f(@) { @ }\n@", "def C::m(@) { @ }", "class C { @ }", "class C { def C() { @ } def m(@) { @ } var a; @ }", "fun(@) { @ }",
+          "fun[@](@) { @ }", "for (@; @; @) { @ }", "for (@ : @) { @ }", "while (@) { @ }", "if (@) { @ } else { @ }", "if (@; @) { @ }", "try { @ } catch(@) { @ } finally { @ }",
+          "switch (@) { case (@) { @ } default { @ } }", "[@, @]", "[@: @]", "\"${@}\"", "f(@, @)", "x.f(@)", "x[@]", "var x = @", "auto x := @", "def f(x) : @ { @ }", "return @",
+          "@ ? @ : @", "(@)", "{ @ }", "def `@`(a, b) { @ }", "global @"]
+soup = st.fixed_dictionaries({"frame": st.sampled_from(FRAMES), "fill": st.lists(st.lists(st.sampled_from(VOCAB), max_size=3), min_size=4, max_size=4),
+                              "glue": st.sampled_from([" ", " ", " ", ""])})
+
+
+def soup_text(c):
+    parts = c["frame"].split("@")
+    out = parts[0]
+    for i, p_ in enumerate(parts[1:]):
+        out += c["glue"].join(c["fill"][i % len(c["fill"])]) + p_
+    return out
+
+
 def strategy():
-    return st.fixed_dictionaries({"prog": progs.programs(with_faults=False), "muts": st.lists(mutation, min_size=0, max_size=4),
-                                  "splice": st.one_of(st.none(), st.integers(0, 400))})
+    return st.one_of(st.fixed_dictionaries({"prog": progs.programs(with_faults=False), "muts": st.lists(mutation, min_size=0, max_size=4),
+                                            "splice": st.one_of(st.none(), st.integers(0, 400))}),
+                     soup, soup)
 
 
 INSERTS = [")", "]", "}", "(", "[", "{", "\"", "'", "\\", "${", "/*", "*/", "//", "#", "0x", "1.5e", "08", "..", "::", ":=", "`", "\x00", "\xff", "\r", ";;", ",", "def", "fun", "class", "else", "catch", "\\U"]
@@ -64,7 +90,24 @@ def mutate(text, muts, splice):
     return out
 
 
+def check_soup(c, ctx):
+    inp = soup_text(c)
+    try:
+        r = ctx.request({"cmd": "parse_oracle", "input": inp})
+    except Violation as v:
+        v.detail = dict(getattr(v, "detail", None) or {}, input=inp)
+        raise
+    ctx.classify("soup_outcome", r["outcome"])
+    if r["nontrivial"]:
+        ctx.nontrivial(inp)
+    ctx.sample({"input": inp[:300], "outcome": r["outcome"]}, limit=3)
+    if r["violation"]:
+        raise Violation("parse oracle: " + r["violation"], {"input": inp})
+
+
 def check(c, ctx):
+    if "frame" in c:
+        return check_soup(c, ctx)
     prog = json.loads(json.dumps(c["prog"]))
     text = refchai.Printer(prog.get("layout")).program(prog)
     inp = mutate(text, c["muts"], c["splice"])
@@ -93,7 +136,7 @@ def root_cause(f):
 def run(ev, tier, bins, report):
     import vlib
     vlib.ensure_built("runner")
-    n = 1600 if tier == "quick" else 40000
+    n = 3200 if tier == "quick" else 80000
     sub = vlib.Evidence("C01", tier)
     failures = hyp.run("c01_mut", sub, tier, n)
     ev.cov["mutated_programs"] = {k: v for k, v in sub.cov.items() if k not in ("rule", "samples")}
